@@ -111,6 +111,7 @@ def main():
     ap.add_argument("id")
     ap.add_argument("--tier", default=os.environ.get("VERIF_TIER", "quick"), choices=["quick", "thorough"])
     ap.add_argument("--replay")
+    ap.add_argument("--summary", action="store_true", help="print a table of violation classes (debugging aid)")
     ap.add_argument("--only", help="run only the explorers whose name contains this string (no evidence written)")
     a = ap.parse_args()
     pid = a.id.upper()
@@ -212,6 +213,14 @@ def main():
         print(f"VIOLATION property={pid} replay={p}")
         print(f"  explorer={v['explorer']} kind={v['kind']} where={json.dumps(v.get('where'))[:300]}")
         print(f"  {v['detail'][:500]}")
+    if a.summary:
+        import collections
+        cnt = collections.Counter()
+        for v in violations:
+            w = {k: x for k, x in (v.get("where") or {}).items() if not isinstance(x, (list, dict))}
+            cnt[(v["explorer"], v["kind"], json.dumps(w, sort_keys=True))] += 1
+        for (e, k, w), c in sorted(cnt.items(), key=lambda t: -t[1]):
+            print(f"SUMMARY {c:6d} {e} {k} {w}")
     if violations:
         print(f"[{pid}] {len(violations)} violating cases recorded ({shown} replay files written)")
 
